@@ -142,6 +142,11 @@ def run (args : List String) : Option String :=
   | ["densify", r, cs] => do
     let r ← parseRat? r; let cs ← parseList? parsePt? cs
     pure (densifyOut r cs)
+  | ["counts", r, cs] => do
+    let r ← parseRat? r; let cs ← parseList? parsePt? cs
+    match densify envRat r cs with
+    | .error e => pure (fmtErrKind e)
+    | .ok _ => pure ("COUNTS " ++ fmtList toString (counts r cs))
   | "seg" :: r :: toks => do
     let r ← parseRat? r
     let (g, rest) ← parseGeom 64 toks
